@@ -55,7 +55,7 @@ def decText (D : Nat) (k : Int) : Text :=
 /-- The search of the shortest digits of `x = A / B` (`tgt` = the canonical datum of `x`):
 on the grid `10^k` the neighbours `D·10^k ≤ x < (D+1)·10^k` are tested; if neither reads back
 as `x` the grid is refined.  When both do, the closer one wins (upper one on a tie, as in
-Dragon4; a tie cannot happen for binary64).  `exact` is returned when the fuel runs out (it
+Dragon4; ties DO occur, e.g. `669438001820031.25` between `…31.2` and `…31.3`, cf. `shortestEven`).  `exact` is returned when the fuel runs out (it
 never does: the fuel reaches the grid on which `x` itself lies). -/
 def shortAux (tgt : F64) (A B : Nat) (exact : Nat × Int) : Nat → Int → Nat × Int
   | 0, _ => exact
@@ -114,6 +114,55 @@ def parseText (t : Text) : Option F64 :=
   else if t = 45 :: infText then some (.inf true)
   else if t = nanText then some .nan
   else (parseDecText t).map (fun r => round r.1 (t.head? == some 45))
+
+/-! ### the JSON number text (`serde_json` → `ryu::Buffer::format_finite`)
+
+The same shortest digits, laid out by ryu's `format64`: integers get `.0`, values with
+`1e-5 ≤ |x| < 1e16` are written positionally, everything else as `d[.ddd]e±x` (the exponent always signed, not
+padded).  Non-finite values serialise as `null`. -/
+
+/-- strip the trailing zeros of the digit block: `(D, k)` with `10 ∤ D` (fuel = number of digits) -/
+def stripZeros : Nat → Nat → Int → Nat × Int
+  | 0, D, k => (D, k)
+  | fuel + 1, D, k => if D ≠ 0 ∧ D % 10 = 0 then stripZeros fuel (D / 10) (k + 1) else (D, k)
+
+/-- the exponent as the vendored `serde_json` writes it: always signed (`e+143`, `e-7`) -/
+def intText (i : Int) : Text := if i < 0 then 45 :: natDigits i.natAbs else 43 :: natDigits i.toNat
+
+def nullText : Text := [110, 117, 108, 108]
+
+/-- the shortest digits as `ryu` chooses them: where two decimals of the shortest length read back as `x`
+and are EXACTLY equally close (e.g. `669438001820031.25`: `…31.2` and `…31.3`), `Display for f64` (Dragon4 /
+Grisu) takes the upper one and `ryu` the one with the even last digit -/
+def shortestEven (m : Nat) (e : Int) : Nat × Int :=
+  let r := shortest m e
+  let D := r.1
+  let k := r.2
+  let x : Rat := ((m : Int) : Rat) * pow2 e
+  if D % 2 = 1 ∧ round (decVal (D - 1) k) false = canon m e ∧ decVal D k - x = x - decVal (D - 1) k
+  then (D - 1, k) else r
+
+/-- `ryu::pretty::format64` of `|x|` for a finite `x = m · 2^e` -/
+def jsonAbs (m : Nat) (e : Int) : Text :=
+  if m = 0 then [48, 46, 48]
+  else
+    let r0 := shortestEven m e
+    let r := stripZeros (natDigits r0.1).length r0.1 r0.2
+    let ds := natDigits r.1
+    let len : Int := ds.length
+    let k := r.2
+    let kk := len + k
+    if 0 ≤ k ∧ kk ≤ 16 then ds ++ List.replicate k.toNat 48 ++ [46, 48]                 -- 1234e7 -> 12340000000.0
+    else if 0 < kk ∧ kk ≤ 16 then ds.take kk.toNat ++ [46] ++ ds.drop kk.toNat          -- 1234e-2 -> 12.34
+    else if -5 < kk ∧ kk ≤ 0 then [48, 46] ++ List.replicate (-kk).toNat 48 ++ ds       -- 1234e-6 -> 0.001234
+    else if ds.length = 1 then ds ++ [101] ++ intText (kk - 1)                          -- 1e30
+    else ds.take 1 ++ [46] ++ ds.drop 1 ++ [101] ++ intText (kk - 1)                    -- 1234e30 -> 1.234e33
+
+/-- what `serde_json` writes for an `f64` -/
+def jsonText : F64 → Text
+  | .nan => nullText
+  | .inf _ => nullText
+  | .fin s m e => if s then 45 :: jsonAbs m e else jsonAbs m e
 
 end F64
 end Qty
